@@ -159,6 +159,13 @@ def run_config(cli, wire, root, spec, nrep):
         res['status'] = 'undrivable'
         res['kparams'] = kparams
         res['notes'].append('params wire=%s kessoku=%s' % (ws['params'], ks['params']))
+        # the migrated file must still compile with the wire files set aside (C14)
+        open(os.path.join(kd, 'main.go'), 'w').write('package main\n\nfunc main() {}\n')
+        bk = pl.run(['go', 'build', '-o', os.devnull, '.'], cwd=kd, env=wenv(), timeout=600)
+        if bk.returncode != 0:
+            mig['compiles'] = False
+            lines_ = bk.stderr.strip().splitlines()
+            mig['diag'] = re.sub(r'[\w/.-]*/', '', lines_[1] if len(lines_) > 1 else bk.stderr)[:200]
         return res
     bw = pl.run(['go', 'build', '-o', os.path.join(d, 'bin_w'), '.'], cwd=d, env=wenv(), timeout=600)
     bk = pl.run(['go', 'build', '-o', os.path.join(kd, 'bin_k'), '.'], cwd=kd, env=wenv(), timeout=600)
